@@ -256,8 +256,15 @@ class PartSys(System):
             for missing in IDS:
                 if missing not in counts.by_id:
                     self._plotly(state, tid, missing, ctx, cached=True)
+            # the depth-limited listing: exactly the nodes up to that depth, with the same values
+            deepest = max(len(pth) for pth in state["tree"].nodes)
+            for md in (1, 2):
+                if md < deepest:
+                    self._plotly(state, "build", tid, ctx, cached=True, max_depth=md)
         elif pos == 1 and ev["set"] == "shift" and tid == "a" and not reset and state["tree"].splits:
             self._plotly(state, "build", "a", ctx)
+            if max(len(pth) for pth in state["tree"].nodes) > 1:
+                self._plotly(state, "build", "a", ctx, max_depth=1)
         # coverage counters
         if had and not reset:
             ctx.mark("accumulating_fills")
@@ -358,24 +365,28 @@ class PartSys(System):
             ctx.count("kl_unequal_counts")
         state["seen_kl"].add(key)  # only checks that passed are cached
 
-    def _plotly(self, state, id1, id2, ctx, cached=False):
+    def _plotly(self, state, id1, id2, ctx, cached=False, max_depth=None):
         counts = state["counts"]
         tree = state["tree"]
         ref = counts.by_id[id1]
         test = counts.by_id.get(id2) if id2 is not None else None
         if cached:
-            key = (tuple(ref.values()), None if test is None else tuple(test.values()), id2 is None)
+            key = (tuple(ref.values()), None if test is None else tuple(test.values()), id2 is None, max_depth)
             if key in state["seen_df"]:
                 return
         try:
-            df = state["kp"].to_plotly_dataframe(tree_id1=id1, tree_id2=id2)
+            if max_depth is None:
+                df = state["kp"].to_plotly_dataframe(tree_id1=id1, tree_id2=id2)
+            else:
+                df = state["kp"].to_plotly_dataframe(tree_id1=id1, tree_id2=id2, max_depth=max_depth)
+                ctx.count("plotly_with_max_depth")
             rows = df_rows(df)
         except Violation:
             raise
         except Exception as e:
             raise Violation("plotly-raises", "to_plotly_dataframe(%r, %r) raised %r" % (id1, id2, e), observed=repr(e))
         ctx.count("plotly_evaluations")
-        check_rows(rows, tree, ref, test, id2 is not None, "to_plotly_dataframe(%r, %r)" % (id1, id2))
+        check_rows(rows, tree, ref, test, id2 is not None, "to_plotly_dataframe(%r, %r%s)" % (id1, id2, "" if max_depth is None else ", max_depth=%d" % max_depth), max_depth)
         if cached:
             state["seen_df"].add(key)
         if id2 is not None and test is not None and any(test[p] != ref[p] for p in tree.nodes):
@@ -425,17 +436,18 @@ def df_rows(df):
     return out
 
 
-def check_rows(rows, tree, ref, test, has_id2, what):
-    if set(rows) != set(tree.nodes):
+def check_rows(rows, tree, ref, test, has_id2, what, max_depth=None):
+    nodes = [p for p in tree.nodes if max_depth is None or len(p) <= max_depth]
+    if set(rows) != set(nodes):
         raise Violation(
             "plotly-nodes",
-            "%s lists nodes %r, the tree has %r" % (what, sorted(rows), sorted(tree.nodes)),
-            expected=sorted(tree.nodes),
+            "%s lists nodes %r, the tree has %r" % (what, sorted(rows), sorted(nodes)),
+            expected=sorted(nodes),
             observed=sorted(rows),
         )
     n_ref = ref[""]
     n_test = test[""] if test is not None else 0
-    for path in tree.nodes:
+    for path in nodes:
         r = rows[path]
         if int(r["depth"]) != len(path):
             raise Violation("plotly-depth", "%s: node %r depth %r" % (what, path, r["depth"]), expected=len(path), observed=r["depth"])
@@ -615,35 +627,42 @@ def enumerate_group(task, seed):
         deadline = _run._DEADLINE
     except Exception:
         deadline = None
-    for ms in point_sets(fam, dim, n)[lo:hi]:
-        if deadline is not None and time.time() > deadline:
-            st["deadline_cut"] += 1
-            continue
+    def explore_set(ms, scoped):
         pts = [[vals[i] for i in cell] for cell in ms]
         bev = {"op": "build", "pts": pts}
         state = SYS.init(cfg)
         # The memo tables (seen_kl / seen_df / seen_dist) skip repeated evaluations of kl_distance / to_plotly_dataframe
-        # for count vectors already verified: a pure-function assumption about those read-only calls.  It is validated
-        # by the fresh re-executions below, which make every call; a violation that only the fresh execution sees
-        # (implementation state hidden between read-only calls, e.g. a cache inside kl_distance) is recorded as a
-        # violation with the fresh path as its replayable witness.  A task may set path_scoped_memo to make the memo
-        # path state instead (exactly the calls of a fresh execution along every path; ~4x the cost).
-        state["path_scoped_memo"] = bool(task.get("path_scoped_memo"))
+        # for count vectors already verified: a pure-function assumption about those read-only calls, validated by the
+        # fresh re-executions, which make every call.  A violation only the fresh execution sees is recorded with the
+        # fresh path as its witness.  If exploration and fresh execution cannot be reconciled (implementation state
+        # hidden between read-only calls), the same point set is explored again with the memo tables as path state
+        # (scoped=True): then every explored path makes exactly the calls of its fresh execution.
+        state["path_scoped_memo"] = scoped or bool(task.get("path_scoped_memo"))
         ctx.marks = 0
         st["states"] += 1
         try:
             o = SYS.step(cfg, state, bev, 0, ctx)
         except Violation as v:
             record(v, [bev])
-            continue
+            return
         st["transitions"] += 1
         st["states"] += 1
         st["trees"] += 1
         nm = 1 if ctx.marks else 0
         if depth <= 0:
             leaf([bev], [o], nm)
-            continue
+            return
         dfs(state, fill_events(state, fam, dim), 1, [bev], [o], nm)
+
+    for ms in point_sets(fam, dim, n)[lo:hi]:
+        if deadline is not None and time.time() > deadline:
+            st["deadline_cut"] += 1
+            continue
+        try:
+            explore_set(ms, False)
+        except HarnessError:
+            st["point_sets_re_explored_with_path_scoped_memo"] += 1
+            explore_set(ms, True)
     return {"stats": dict(st), "violations": violations, "samples": samples, "wall": time.time() - t0}
 
 
